@@ -243,7 +243,7 @@ def make_ctxs(dtname):
 
     p = FMT[dtname]["p"]
     out = []
-    for prec in (p, p + 1, 2 * p, 20 * p):
+    for prec in (max(2, p // 2), p - 1, p, p + 1, 2 * p, 20 * p):
         ctx = mpmath.mp.clone()
         ctx.prec = prec
         out.append((prec, ctx))
